@@ -135,7 +135,7 @@ PROPS = {
         'technique': 'call-site agreement lint (text argument vs recorded range) + who-may-write analysis',
     },
     'C04': {
-        'rules': [rule('X5'), rule('X6'), rule('X7'), rule('X15'), rule('G7', keep=LOOKAHEAD), rule('X14'), rule('X10', keep=['defines'])],
+        'rules': [rule('X5'), rule('X6'), rule('X7'), rule('X15'), rule('G7', keep=LOOKAHEAD), rule('X14'), rule('X10', keep=['defines']), rule('X9', keep=['stale-table'])],
         'explanation': 'The definedness predicate is evaluated on one name (X5); the `ifdef and `ifndef handlers are the same '
                        'algorithm up to the negated first test (X6); nothing in a skipped region can touch the define table, the '
                        'output, raise an error or start a nested run, because the skip guard precedes every effect of the loop '
@@ -201,7 +201,8 @@ PROPS = {
         'technique': 'grammar-shape lint (mandatory closers, eof-terminated entries) + error-mapping site audit',
     },
     'C15': {
-        'rules': [rule('G9'), rule('G11'), rule('W2'), rule('G19')],
+        'needs_mir': True,
+        'rules': [rule('G9'), rule('G11'), rule('W2'), rule('G19'), rule('S3')],
         'explanation': 'The incomplete entries consist only of combinators that cannot fail (many0, opt) over item parsers that cannot '
                        'succeed on empty input (G9: least-fixed-point nullability over the grammar; 363 repetition sites) and no '
                        'parser raises nom Failure/cut (G11) => never Error::Parse; they are the strict entries with many_till(X, eof) '
